@@ -56,6 +56,8 @@ def plan(seed, subbatch):
     for _ in range(n_ops):
         kind_op = op_rng.choice(OPS)
         op = {"op": kind_op, "target": op_rng.choice((None, 0, 1, 2)) if kind_op not in ("remove", "readd") else op_rng.randint(0, 2)}
+        if kind_op in ("purge", "recalculate") and op_rng.random() < 0.3:
+            op["raw"] = True   # applied to the state as it is (e.g. right after add_indicator, before any calculate)
         if kind_op == "calc_index":
             op["pos"] = op_rng.choice((op_rng.random(), 0.999, 0.999))
             op["neg"] = op_rng.random() < 0.5
@@ -81,7 +83,7 @@ def plan(seed, subbatch):
     start = world.pick_start(cfg, base_s, tf_s)
     pre, ops, fired, rows = planlib.stream_and_schedule(seed, subbatch, n, base_s, start, faults, burst, 0.0, extras)
     fired["operator_ops"] += len(extras)
-    out = [{"op": "new", "preload": pre}] + ops + [{"op": "final"}]
+    out = [{"op": "new", "preload": pre, "calculate": cfg.random() < 0.7}] + ops + [{"op": "final"}]
     return {"format": 1, "property": ID, "seed": seed, "subbatch": subbatch,
             "config": {"kind": kind, "members": members, "hexital": hexcfg, "base_s": base_s},
             "ops": out, "fired": dict(fired)}
@@ -171,7 +173,7 @@ def execute(trace, ctx=None):
             kind = op["op"]
             try:
                 if kind == "new":
-                    m.new(op.get("preload") or [])
+                    m.new(op.get("preload") or [], calculate=op.get("calculate", True))
                     continue
                 if m.subject is None:
                     continue
@@ -204,6 +206,17 @@ def execute(trace, ctx=None):
                         if any(v is not None for col in want.values() for v in col):
                             had_reading = True
                     applied += 1
+                elif kind == "recalculate" and op.get("raw"):
+                    # on the state as it is (possibly never calculated): afterwards the recalculated
+                    # member(s) must hold exactly the batch readings
+                    m.recalculate(slot)
+                    want = batch_columns(m)
+                    got = live_columns(m)
+                    for s in ([slot] if slot is not None else m.live_slots()):
+                        if got.get(s.name) != want.get(s.name):
+                            raise Violation("recalculate-vs-batch", spec_label(s.spec), "differs", {"name": s.name})
+                    run.stats["raw_ops"] += 1
+                    applied += 1
                 elif kind == "recalculate":
                     m.calculate(slot)
                     before = m.snapshot()
@@ -212,7 +225,10 @@ def execute(trace, ctx=None):
                     applied += 1
                 elif kind == "purge":
                     targets = [slot] if slot is not None else m.live_slots()
-                    m.calculate(None)
+                    if not op.get("raw"):
+                        m.calculate(None)
+                    else:
+                        run.stats["raw_ops"] += 1
                     before = m.snapshot()
                     owned = {}
                     for s in targets:
